@@ -70,70 +70,83 @@ class Scenario:
         class SEv(cevents.ScheduledEvent):
             pass
         given_attrs = termios.tcgetattr(self.slave)
+        exited = {}      # kind -> last object of that kind that was left (for re-entering the same object)
         for st in hist[1:]:
             rec = {"k": st["k"], "exc": "", "toks": [], "kind": st.get("kind", ""), "name": st.get("name", "")}
             try:
-                if st["k"] == "enter":
-                    kind = st["kind"]
-                    if kind == "Input":
-                        obj = Input(in_stream=self.in_stream, sigint_event=bool(st["sigint"]),
-                                    disable_terminal_start_stop=bool(st["nostart"]))
-                    elif kind == "Fullscreen":
-                        obj = FullscreenWindow(out_stream=self.out, hide_cursor=bool(st["hide"]))
-                    elif kind == "CursorAware":
-                        obj = CursorAwareWindow(out_stream=self.out, in_stream=self.in_stream, hide_cursor=bool(st["hide"]),
-                                                keep_last_line=bool(st["keep"]))
-                    elif kind == "Cbreak":
-                        obj = Cbreak(self.in_stream)
-                    elif kind == "Nonblocking":
-                        obj = Nonblocking(self.in_stream)
-                    else:
-                        obj = Termmode(self.in_stream, given_attrs)
-                    n0 = len(self.out.replies)
-                    obj.__enter__()
-                    stack.append((kind, obj))
-                    rec["reply"] = self.out.replies[-1] if len(self.out.replies) > n0 else [0, 0]
-                elif st["k"] == "op":
-                    kind, obj = stack[-1]
-                    name = st["name"]
-                    if name == "render":
-                        obj.render_to_terminal([fmtstr("hi", "red"), "x"], (1, 1))
-                    elif name == "request":
-                        obj.send(0)
-                    elif name == "request_key":
-                        os.write(self.out.in_master, b"k")
-                        rec["got"] = type(obj.send(0)).__name__
-                    elif name == "request_paste":
-                        # a burst above the paste threshold: the paste loop reads again and hits BlockingIOError
-                        os.write(self.out.in_master, b"0123456789abcdefghij")
-                        rec["got"] = type(obj.send(0)).__name__
-                        obj.send(0)
-                    elif name == "trigger":
-                        cb = obj.threadsafe_event_trigger(Ev)
-                        cb()
-                        obj.send(0)
-                    elif name == "sched":
-                        cb = obj.scheduled_event_trigger(SEv)
-                        cb(time.time() - 1)
-                        obj.send(0)
-                    elif name == "blocked_sigint":
-                        # SIGINT from another thread at an arbitrary moment of a blocked request
-                        t = threading.Timer(st.get("delay", 0.03), lambda: os.kill(os.getpid(), signal.SIGINT))
-                        t.start()
-                        try:
-                            r = obj.send(1.0)
-                            rec["got"] = type(r).__name__
-                        finally:
-                            t.join()
-                elif st["k"] in ("exit", "raise"):
-                    kind, obj = stack.pop()
-                    if st["k"] == "raise":
-                        try:
-                            raise RuntimeError("boom")
-                        except RuntimeError:
-                            obj.__exit__(*sys.exc_info())
-                    else:
-                        obj.__exit__(None, None, None)
+                def body():
+                    if st["k"] == "enter":
+                        kind = st["kind"]
+                        if st.get("reuse") and kind in exited:
+                            obj = exited[kind]
+                        elif kind == "Input":
+                            obj = Input(in_stream=self.in_stream, sigint_event=bool(st["sigint"]),
+                                        disable_terminal_start_stop=bool(st["nostart"]))
+                        elif kind == "Fullscreen":
+                            obj = FullscreenWindow(out_stream=self.out, hide_cursor=bool(st["hide"]))
+                        elif kind == "CursorAware":
+                            obj = CursorAwareWindow(out_stream=self.out, in_stream=self.in_stream, hide_cursor=bool(st["hide"]),
+                                                    keep_last_line=bool(st["keep"]))
+                        elif kind == "Cbreak":
+                            obj = Cbreak(self.in_stream)
+                        elif kind == "Nonblocking":
+                            obj = Nonblocking(self.in_stream)
+                        else:
+                            obj = Termmode(self.in_stream, given_attrs)
+                        n0 = len(self.out.replies)
+                        obj.__enter__()
+                        stack.append((kind, obj))
+                        rec["reply"] = self.out.replies[-1] if len(self.out.replies) > n0 else [0, 0]
+                    elif st["k"] == "op":
+                        kind, obj = stack[-1]
+                        name = st["name"]
+                        if name == "render":
+                            obj.render_to_terminal([fmtstr("hi", "red"), "x"], (1, 1))
+                        elif name == "request":
+                            obj.send(0)
+                        elif name == "request_key":
+                            os.write(self.out.in_master, b"k")
+                            rec["got"] = type(obj.send(0)).__name__
+                        elif name == "request_paste":
+                            # a burst above the paste threshold: the paste loop reads again and hits BlockingIOError
+                            os.write(self.out.in_master, b"0123456789abcdefghij")
+                            rec["got"] = type(obj.send(0)).__name__
+                            obj.send(0)
+                        elif name == "trigger":
+                            cb = obj.threadsafe_event_trigger(Ev)
+                            cb()
+                            obj.send(0)
+                        elif name == "sched":
+                            cb = obj.scheduled_event_trigger(SEv)
+                            cb(time.time() - 1)
+                            obj.send(0)
+                        elif name == "blocked_sigint":
+                            # SIGINT from another thread at an arbitrary moment of a blocked request
+                            t = threading.Timer(st.get("delay", 0.03), lambda: os.kill(os.getpid(), signal.SIGINT))
+                            t.start()
+                            try:
+                                r = obj.send(1.0)
+                                rec["got"] = type(r).__name__
+                            finally:
+                                t.join()
+                    elif st["k"] in ("exit", "raise"):
+                        kind, obj = stack.pop()
+                        exited[kind] = obj
+                        if st["k"] == "raise":
+                            try:
+                                raise RuntimeError("boom")
+                            except RuntimeError:
+                                obj.__exit__(*sys.exc_info())
+                        else:
+                            obj.__exit__(None, None, None)
+                if st.get("thread") and self.main:
+                    self.main = False
+                    try:
+                        run_in_thread(body)
+                    finally:
+                        self.main = True
+                else:
+                    body()
             except KeyboardInterrupt:
                 rec["exc"] = "KeyboardInterrupt"
             except Exception as e:  # noqa
@@ -276,6 +289,17 @@ class C12(TraceCheck):
                     yield [init, E("Input", sigint=sig), OP("request"), X, E("Input", sigint=sig), OP("request"), X,
                            E("Input", sigint=sig), OP("trigger"), X]
                 yield [init, E("Nonblocking"), E("Input"), OP("request"), X, X]
+                # the SAME object entered again after having been left (Input documents this use)
+                for kind in ("Input", "Cbreak", "Nonblocking", "Termmode"):
+                    yield [init, E(kind), X, E(kind, reuse=1), X, E(kind, reuse=1), R]
+                yield [init, E("Input", sigint=1), OP("request_key"), X, E("Input", sigint=1, reuse=1), OP("request"), X]
+                if main:
+                    # ... and the same object used first in the main thread, then in another thread (and vice versa)
+                    T = {"thread": 1}
+                    for sig in (0, 1):
+                        yield [init, E("Input", sigint=sig), X, dict(E("Input", sigint=sig, reuse=1), **T), dict(X, **T)]
+                        yield [init, dict(E("Input", sigint=sig), **T), dict(X, **T), E("Input", sigint=sig, reuse=1), X]
+                        yield [init, E("Input", sigint=sig, nostart=1), OP("request"), R, dict(E("Input", reuse=1), **T), dict(R, **T)]
                 yield [init, E("Cbreak"), E("Nonblocking"), E("Termmode"), R, R, R]
             if main:
                 for sig in (0, 1):
